@@ -52,6 +52,9 @@ def check_phase_order(case):
         r1 = H.run(sc)
         sc2 = dict(sc)
         sc2["phases"] = [sc["phases"][i] for i in perm]
+        if sc.get("VmB_calls"):
+            # parameters set again between solve calls are keyed by the position of the phase: they move with the phase
+            sc2["VmB_calls"] = [{str(j): ch[str(perm[j])] for j in range(len(perm)) if str(perm[j]) in ch} for ch in sc["VmB_calls"]]
         r2 = H.run(sc2)
     finally:
         sys.stdout = so
